@@ -7,6 +7,7 @@
 //! trusted: R13: `for x in a..=b` rewritten into an explicit loop over the inclusive range
 //! trusted: R15 (deep slice): update_persisted_channel builds its result from async-move blocks (impl Future, outside the verifier); the unit extracts the body of the block that runs after the consolidating full-monitor write verbatim as an async fn of (monitor_name, latest_update_id, write_status), together with the function-local const LEGACY_CLOSED_CHANNEL_UPDATE_ID; its precondition is the meaning of a successful write: the stored full monitor then is the one just written (stored_latest == its latest_update_id); the decision update-vs-full-monitor and the writes themselves are dropped and not claimed
 //! trusted: R15 (deep slice): maybe_read_channel_monitor_with_updates joins futures and iterator adapters; the unit extracts the filter predicate that selects the updates to replay verbatim; and the statement(s) between collecting the listed names and filtering them (the sort) verbatim as a function of the list; `updates` is an environment type standing for Vec<UpdateName> whose sort / sort_unstable / sort_by_key / sort_unstable_by_key / reverse carry the std contracts (permutation; ordered by Ord / by the key; a key closure `|u| E`, which Verus gives no specification, is rewritten into the closure returning `(E) as i128` with that as its postcondition, so only integer keys of at most 64 bits are understood, anything else is a tool error), and the derived Ord of UpdateName is taken to be the lexicographic order on (id, name) (trusted: #[derive(Ord)] on a tuple struct); reading and applying the updates in iteration order (MultiResultFuturePoller keeps the order of its futures) are dropped and not claimed
+//! trusted: R15 (deep slice): maybe_read_channel_monitor_with_updates: the body of the loop that applies the stored updates, verbatim as a function of one read result and the monitor (update_monitor records the update in a ghost log and succeeds iff the uninterpreted applies_cleanly); R9: the map_err closure gets its parameter type, its log statement is dropped by R3
 //! plemma: C19 call-site precondition of KVStoreSync::remove in the blanket Persist impl's archive_persisted_channel: the live copy of a monitor is deleted only after the very bytes read from it were accepted by the archive namespace
 //! trusted: sync_persist: the three methods of `impl<K: KVStoreSync> Persist for K` are verified as inherent methods of a Store stub whose write reports its result through the uninterpreted write_ok, whose read of the live namespace returns live_value(key), and whose remove carries the archive precondition; ChannelMonitor::encode / MonitorName::to_key uninterpreted; enum ChannelMonitorUpdateStatus extracted; R5: the signer type parameter is dropped
 //! trusted: read_channel_monitors: the test that refuses a monitor stored under a key other than its own persistence key is sliced (keys compare by identity); listing, reading and decoding are dropped and not claimed
@@ -269,6 +270,48 @@ impl Updates {
     updates.sort_unstable(); updates.reverse();
 //@end
 
+// ---- recovery: a stored update that cannot be read or applied fails the whole read (no partially replayed monitor is returned) ----
+pub mod replay {
+use vstd::prelude::*;
+pub struct IoError {}
+pub enum ErrorKind { Other, NotFound }
+impl IoError { #[verifier::external_body] pub fn new(kind: ErrorKind, msg: &str) -> (r: IoError) { unimplemented!() } }
+pub struct Update { pub id: u64 }
+pub struct UpdateName {}
+pub struct Broadcaster {} pub struct FeeEstimator {} pub struct Logger {}
+// ghost log of the updates handed to update_monitor, in order
+pub struct Monitor { pub applied: Ghost<Seq<Update>> }
+pub uninterp spec fn applies_cleanly(m: Monitor, u: Update) -> bool;
+impl Monitor {
+    #[verifier::external_body] pub fn update_monitor(&mut self, update: &Update, broadcaster: &Broadcaster, fee_estimator: &FeeEstimator, logger: &Logger) -> (r: Result<(), ()>)
+        ensures final(self).applied@ == old(self).applied@.push(*update), r is Ok == applies_cleanly(*old(self), *update) { unimplemented!() }
+}
+pub struct Persister { pub broadcaster: Broadcaster, pub fee_estimator: FeeEstimator, pub logger: Logger }
+impl Persister {
+//@extract lightning/src/util/persist.rs :: impl MonitorUpdatingPersisterAsyncInner :: fn maybe_read_channel_monitor_with_updates
+//@slice R15
+    for (update_name, update_res) in MultiResultFuturePoller::new(update_futures).await { $body:any } Ok(Some((best_block, monitor)))
+//@with
+    fn replay_one_stored_update(&self, monitor: &mut Monitor, update_name: &UpdateName, update_res: Result<Update, IoError>) -> Result<(), IoError> { $body Ok(()) }
+//@rw R9
+    .map_err(|e| { io::Error::new(io::ErrorKind::Other, "Monitor update failed") })?
+//@with
+    .map_err(|e: ()| -> (o: IoError) { IoError::new(ErrorKind::Other, "Monitor update failed") })?
+//@ret r
+//@ensures P C19 recovery-fails-as-a-whole-when-a-stored-update-cannot-be-read-or-does-not-apply-and-otherwise-applies-the-update-it-read
+    update_res is Err ==> r is Err && final(monitor).applied@ == old(monitor).applied@,
+    update_res matches Ok(u) ==> final(monitor).applied@ == old(monitor).applied@.push(u) && (r is Ok) == applies_cleanly(*old(monitor), u),
+//@mutant update_that_does_not_apply_is_skipped
+    io::Error::new(io::ErrorKind::Other, "Monitor update failed") })?;
+//@with
+    io::Error::new(io::ErrorKind::Other, "Monitor update failed") }).ok();
+//@mutant unreadable_update_is_skipped
+    let update = update_res?;
+//@with
+    let update = match update_res { Ok(u) => u, Err(_) => return Ok(()) };
+//@end
+}
+}
 // ---- the blanket Persist impl for KVStoreSync: what "Completed" means, and archiving -------------------------
 pub mod sync_persist {
 use vstd::prelude::*;
